@@ -505,6 +505,19 @@ func Tpl(tag string) corev1.PodTemplateSpec {
 		kv := strings.SplitN(tag[i+len("+label:"):], "=", 2)
 		t.Labels[kv[0]] = kv[1]
 	}
+	// "X+nodesel:k=v" : template X with spec.nodeSelector {k: v}; "+preferred": a node affinity with only a preferred term
+	if i := strings.Index(tag, "+nodesel:"); i > 0 {
+		rest := tag[i+len("+nodesel:"):]
+		if j := strings.Index(rest, "+"); j >= 0 {
+			rest = rest[:j]
+		}
+		kv := strings.SplitN(rest, "=", 2)
+		t.Spec.NodeSelector = map[string]string{kv[0]: kv[1]}
+	}
+	if strings.Contains(tag, "+preferred") {
+		t.Spec.Affinity = &corev1.Affinity{NodeAffinity: &corev1.NodeAffinity{PreferredDuringSchedulingIgnoredDuringExecution: []corev1.PreferredSchedulingTerm{
+			{Weight: 1, Preference: corev1.NodeSelectorTerm{MatchExpressions: []corev1.NodeSelectorRequirement{{Key: "zone", Operator: corev1.NodeSelectorOpIn, Values: []string{"z1"}}}}}}}}
+	}
 	// "X+side" : template X with a second container "side"
 	if strings.Contains(tag, "+side") {
 		base := tag
